@@ -1,3 +1,376 @@
 package main
 
-func cmdCheck(args []string) int { return 2 }
+// Property checks: select obligations, discharge, classify against known findings, replay, evidence.
+
+import (
+	"encoding/json"
+	"flag"
+	"fmt"
+	"os"
+	"path/filepath"
+	"regexp"
+	"sort"
+	"strconv"
+	"strings"
+	"time"
+)
+
+type PropConfig struct {
+	ID          string   `json:"id"`
+	Functions   []string `json:"functions"`   // function keys or prefix*
+	Lemmas      []string `json:"lemmas"`      // lemma name prefixes
+	Kinds       []string `json:"kinds"`       // obligation kinds claimed (empty = all)
+	Include     []string `json:"include"`     // regexps on obligation names; if set, only these (after kinds)
+	Exclude     []string `json:"exclude"`     // regexps on obligation names not claimed (with reason in ExcludeWhy)
+	ExcludeWhy  string   `json:"exclude_why"`
+	Assumptions []string `json:"assumptions"`
+	TrustedBase []string `json:"trusted_base"`
+	Explanation string   `json:"explanation"`
+	Replay      string   `json:"replay"` // replay family
+	MinObl      int      `json:"min_obligations"`
+	Bounded     []BoundedSpec `json:"bounded"`
+}
+
+type BoundedSpec struct {
+	Name  string `json:"name"`
+	Bound string `json:"bound"`
+	Test  string `json:"test"` // harness test name
+	Pkg   string `json:"pkg"`
+}
+
+type Finding struct {
+	Property   string `json:"property"`
+	Obligation string `json:"obligation"`
+	Status     string `json:"status"` // open | fixed
+	What       string `json:"what"`
+	Commit     string `json:"commit,omitempty"`
+	Witness    string `json:"witness,omitempty"`
+}
+
+type FindingsFile struct {
+	Findings []Finding `json:"findings"`
+}
+
+func loadFindings() []Finding {
+	var ff FindingsFile
+	b, err := os.ReadFile(filepath.Join(verifDir, "known_findings.json"))
+	if err != nil {
+		return nil
+	}
+	if err := json.Unmarshal(b, &ff); err != nil {
+		fmt.Fprintln(os.Stderr, "known_findings.json:", err)
+		os.Exit(2)
+	}
+	return ff.Findings
+}
+
+func cmdCheck(args []string) int {
+	fs := flag.NewFlagSet("check", flag.ExitOnError)
+	tier := fs.String("tier", "", "quick|thorough")
+	var id string
+	if len(args) > 0 && !strings.HasPrefix(args[0], "-") {
+		id = args[0]
+		args = args[1:]
+	}
+	fs.Parse(args)
+	if id == "" && fs.NArg() > 0 {
+		id = fs.Arg(0)
+	}
+	if *tier == "" {
+		*tier = os.Getenv("VERIF_TIER")
+	}
+	if *tier == "" {
+		*tier = "quick"
+	}
+	seed, _ := strconv.Atoi(os.Getenv("VERIF_SEED"))
+	t0 := time.Now()
+	b, err := os.ReadFile(filepath.Join(verifDir, "props", id+".json"))
+	if err != nil {
+		fmt.Fprintln(os.Stderr, "no property config:", err)
+		return 2
+	}
+	var pc PropConfig
+	if err := json.Unmarshal(b, &pc); err != nil {
+		fmt.Fprintln(os.Stderr, "bad property config:", err)
+		return 2
+	}
+	e := mustLoad()
+	findings := loadFindings()
+
+	type fnInfo struct {
+		Obligations int      `json:"obligations"`
+		Discharged  int      `json:"discharged"`
+		Abstracted  []string `json:"abstracted,omitempty"`
+		Unmodelled  []string `json:"unmodelled_calls,omitempty"`
+	}
+	fnInfos := map[string]*fnInfo{}
+	var obls []*Obligation
+	var degraded []string
+	var unclaimed []string
+	usedContracts := map[string]bool{}
+	kindOK := func(k string) bool {
+		if len(pc.Kinds) == 0 {
+			return true
+		}
+		for _, x := range pc.Kinds {
+			if x == k {
+				return true
+			}
+		}
+		return false
+	}
+	var incRe, excRe []*regexp.Regexp
+	for _, s := range pc.Include {
+		incRe = append(incRe, regexp.MustCompile(s))
+	}
+	for _, s := range pc.Exclude {
+		excRe = append(excRe, regexp.MustCompile(s))
+	}
+	claimed := func(o *Obligation) bool {
+		if !kindOK(o.Kind) {
+			return false
+		}
+		if len(incRe) > 0 {
+			ok := false
+			for _, r := range incRe {
+				if r.MatchString(o.Name) {
+					ok = true
+				}
+			}
+			if !ok {
+				return false
+			}
+		}
+		for _, r := range excRe {
+			if r.MatchString(o.Name) {
+				unclaimed = append(unclaimed, o.Name)
+				return false
+			}
+		}
+		return true
+	}
+	var keys []string
+	for _, p := range pc.Functions {
+		if strings.HasSuffix(p, "*") {
+			keys = append(keys, expandFuncs(e, []string{p})...)
+			continue
+		}
+		if _, ok := e.funcs[p]; !ok {
+			degraded = append(degraded, p)
+			continue
+		}
+		keys = append(keys, p)
+	}
+	for _, k := range keys {
+		fc, err := e.genFunction(e.funcs[k])
+		if err != nil {
+			// a contract that no longer attaches (renamed local, restructured loop) is not a verdict
+			degraded = append(degraded, k+": "+err.Error())
+			continue
+		}
+		fi := &fnInfo{Abstracted: fc.abstracted}
+		for u := range fc.unmodelled {
+			fi.Unmodelled = append(fi.Unmodelled, u)
+		}
+		sort.Strings(fi.Unmodelled)
+		for u := range fc.used {
+			usedContracts[u] = true
+		}
+		fnInfos[k] = fi
+		for _, o := range fc.obls {
+			if claimed(o) {
+				obls = append(obls, o)
+			}
+		}
+	}
+	if len(pc.Lemmas) > 0 {
+		for _, o := range e.genLemmas().obls {
+			for _, p := range pc.Lemmas {
+				if strings.HasPrefix(o.Anchor, p) {
+					obls = append(obls, o)
+					break
+				}
+			}
+		}
+	}
+	header := e.u.header()
+	timeout := 10 * time.Second
+	if *tier == "thorough" {
+		timeout = 60 * time.Second
+	}
+	runObligations(obls, header, timeout, *tier == "thorough")
+	// covers
+	var vacuous []*Obligation
+	coverCount := 0
+	{
+		var cov []*Obligation
+		if *tier == "thorough" {
+			cov = obls
+		} else {
+			// one per function and kind "post"/"step"
+			seen := map[string]bool{}
+			for _, o := range obls {
+				k := o.Func + "#" + o.Kind
+				if !seen[k] {
+					seen[k] = true
+					cov = append(cov, o)
+				}
+			}
+		}
+		vacuous = runCovers(cov, header, timeout)
+		for _, o := range cov {
+			if o.Kind != "lemma" {
+				coverCount++
+			}
+		}
+	}
+
+	// classify
+	byBackend := map[string]int{}
+	solverTime := 0.0
+	discharged := 0
+	var violations []*Obligation
+	var knownHit []Finding
+	engineErr := false
+	for _, o := range obls {
+		solverTime += o.Seconds
+		if fi := fnInfos[o.Func]; fi != nil {
+			fi.Obligations++
+		}
+		if o.Status == "unsat" {
+			discharged++
+			byBackend[o.Solver]++
+			if fi := fnInfos[o.Func]; fi != nil {
+				fi.Discharged++
+			}
+			continue
+		}
+		if o.Status == "disagree" {
+			engineErr = true
+			fmt.Fprintln(os.Stderr, "ENGINE ERROR: solvers disagree on", o.Name, o.Output)
+			continue
+		}
+		matched := false
+		for _, f := range findings {
+			if f.Property == pc.ID && f.Status == "open" && f.Obligation == o.Name {
+				matched = true
+				knownHit = append(knownHit, f)
+				fmt.Printf("KNOWN-FINDING: property=%s %s — %s\n", pc.ID, o.Name, f.What)
+			}
+		}
+		if !matched {
+			violations = append(violations, o)
+		}
+	}
+	for _, d := range degraded {
+		fmt.Printf("DEGRADED property=%s function=%s reason=contract-does-not-attach (not a verdict)\n", pc.ID, d)
+	}
+	for _, o := range vacuous {
+		fmt.Printf("NOTE property=%s obligation=%s program point not shown reachable (vacuity guard)\n", pc.ID, o.Name)
+	}
+	replayDir := filepath.Join(verifDir, "replay", pc.ID)
+	os.RemoveAll(replayDir)
+	for _, o := range violations {
+		path, confirmed := writeReplay(e, &pc, o, header, replayDir)
+		if confirmed {
+			fmt.Printf("VIOLATION property=%s replay=%s\n", pc.ID, path)
+		} else {
+			fmt.Printf("VIOLATION property=%s replay=%s no-failing-input-found\n", pc.ID, path)
+		}
+	}
+	// bounded stand-ins
+	boundedRes := map[string]interface{}{}
+	for _, bs := range pc.Bounded {
+		ok, out := runBounded(bs, *tier)
+		boundedRes[bs.Name] = map[string]interface{}{"bound": bs.Bound, "passed": ok, "output": firstLines(out, 6)}
+		if !ok {
+			p := filepath.Join(replayDir, sanitize("bounded_"+bs.Name)+".json")
+			os.MkdirAll(replayDir, 0o755)
+			jb, _ := json.MarshalIndent(map[string]interface{}{"kind": "bounded", "name": bs.Name, "output": out}, "", " ")
+			os.WriteFile(p, jb, 0o644)
+			fmt.Printf("VIOLATION property=%s replay=%s\n", pc.ID, p)
+			violations = append(violations, &Obligation{Name: "bounded:" + bs.Name})
+		}
+	}
+
+	// evidence
+	claimedN := len(obls) - len(knownHit)
+	level := "proof"
+	var samples []interface{}
+	for i, o := range obls {
+		if i%maxInt(1, len(obls)/6) == 0 && len(samples) < 8 {
+			samples = append(samples, map[string]interface{}{"obligation": o.Name, "kind": o.Kind, "pos": o.Pos, "statement": o.Desc,
+				"smt_lines": o.Prefix, "result": o.Status, "backend": o.Solver, "seconds": o.Seconds})
+		}
+	}
+	var kf []string
+	for _, f := range knownHit {
+		kf = append(kf, f.Obligation+": "+f.What)
+	}
+	var trusted []string
+	trusted = append(trusted, pc.TrustedBase...)
+	var ucs []string
+	for u := range usedContracts {
+		ucs = append(ucs, u)
+	}
+	sort.Strings(ucs)
+	for _, u := range ucs {
+		if strings.HasPrefix(u, "ext:") {
+			trusted = append(trusted, "assumed contract of "+strings.TrimPrefix(u, "ext:"))
+		}
+	}
+	trusted = append(trusted, "go/ssa lowering (x/tools v0.29.0)", "stickvc VC generator", "SMT solvers z3 4.8.12 / z3 5.1.0 / cvc5 1.0")
+	expl := pc.Explanation
+	if len(knownHit) > 0 {
+		expl += fmt.Sprintf(" %d obligation(s) are open known findings (genuine defects recorded in known_findings.json) and are not counted under obligations/discharged.", len(knownHit))
+	}
+	cov := map[string]interface{}{
+		"obligations":              claimedN,
+		"discharged":               discharged,
+		"checker_cmd":              "bin/check " + pc.ID + " --tier " + *tier,
+		"trusted_base":             trusted,
+		"functions_under_contract": fnInfos,
+		"by_backend":               byBackend,
+		"solver_time_s":            round2(solverTime),
+		"known_findings_hit":       kf,
+		"vacuity":                  map[string]interface{}{"cover_queries": coverCount, "unreachable_or_unknown": len(vacuous)},
+		"samples":                  samples,
+		"explanation":              expl,
+		"degraded":                 degraded,
+		"not_claimed":              map[string]interface{}{"obligations": unclaimed, "why": pc.ExcludeWhy},
+		"bounded":                  boundedRes,
+		"contract_assumes":         e.contracts.Assumes,
+	}
+	if discharged != claimedN || claimedN == 0 {
+		level = "other"
+	}
+	ev := map[string]interface{}{
+		"property_id": pc.ID, "tier": *tier, "seed": seed, "level": level, "coverage": cov,
+		"assumptions": pc.Assumptions, "wall_s": round2(time.Since(t0).Seconds()), "violations": len(violations),
+	}
+	os.MkdirAll(filepath.Join(verifDir, "evidence"), 0o755)
+	jb, _ := json.MarshalIndent(ev, "", " ")
+	os.WriteFile(filepath.Join(verifDir, "evidence", pc.ID+".json"), jb, 0o644)
+	fmt.Printf("property=%s tier=%s obligations=%d discharged=%d known-findings=%d violations=%d degraded=%d wall=%.1fs\n",
+		pc.ID, *tier, claimedN, discharged, len(knownHit), len(violations), len(degraded), time.Since(t0).Seconds())
+	if engineErr {
+		return 2
+	}
+	if len(violations) > 0 {
+		return 1
+	}
+	if pc.MinObl > 0 && len(obls) < pc.MinObl && len(degraded) == 0 {
+		fmt.Fprintf(os.Stderr, "ENGINE ERROR: only %d obligations generated, expected at least %d\n", len(obls), pc.MinObl)
+		return 2
+	}
+	return 0
+}
+
+func maxInt(a, b int) int {
+	if a > b {
+		return a
+	}
+	return b
+}
+
+func round2(f float64) float64 { return float64(int(f*100+0.5)) / 100 }
